@@ -2,23 +2,30 @@
 from checks_path import *  # noqa
 from seq_common import run_seq, replay_seq
 from store_common import run_store, run_store_nat
+from structs_common import run_structs, replay_structs
 
 PROPERTY = 'C07'
-PROPS = ['SalsaVerif.Props.C07']
+GEN = ['LogicIntern', 'LogicStructs']
+PROPS = ['SalsaVerif.Props.C07', 'SalsaVerif.Props.GenLogicIntern', 'SalsaVerif.Props.GenLogicStructs']
 EXPLANATION = ('Component theorems over the struct-table and interner models: every step that bumps a slot\'s generation (free-list reuse, '
                'identity collision, interned reuse) clears its memos and replaces its fields; every stored memo was inserted under the '
                'slot\'s current generation; an interned dependency edge of an older generation answers "changed"; a struct read or created in '
                'revision r is not deleted in r and an interned value touched in r is not reused in r. The integrated statement (no stale '
                'handle inside a verified memo, `c07_no_stale_handle`) needs the full engine model and is listed as NOT YET PROVED. Tied to '
-               'salsa by the constant-hash interner comparison (reuse steps, generations) and by churn-heavy generated programs (conditional '
+               'salsa by the constant-hash interner comparison (reuse steps, generations), by the step-by-step replay of tracked-struct hook '
+               'traces through the struct-table model (`vh structs` + `svdriver structs`: generation bump and memo clearing on identity '
+               'change and on free-list reuse, FIFO reuse order, read/write lock stamps, deletes, invariant MemoGen/FreeOK after every line; '
+               'see C06) and by churn-heavy generated programs (conditional '
                'struct creation, functions keyed by structs, interned values and tuples) against the reference interpreter: aliasing shows up '
                'as a wrong value or a changed id.')
-ASSUMPTIONS = ['integrated claim rests on the oracle comparison, the theorems are component-level (labelled partial)']
+ASSUMPTIONS = ['integrated claim rests on the oracle comparison, the theorems are component-level (labelled partial)',
+               'the struct-table trace tie shares the assumptions listed under C06 (field values announced by the harness, unmodelled unwinds cut short)']
 
 def ties(ctx):
     n = 2500 if ctx.tier == 'quick' else 200000
     m = 1500 if ctx.tier == 'quick' else 60000
-    return [run_store(ctx, 'intern', m), run_store_nat(ctx, 6 if ctx.tier == 'quick' else 300), run_seq(ctx, 'full', n, seed_offset=9)]
+    k = 1500 if ctx.tier == 'quick' else 100000
+    return [run_store(ctx, 'intern', m), run_store_nat(ctx, 6 if ctx.tier == 'quick' else 300), run_structs(ctx, k, seed_offset=71), run_seq(ctx, 'full', n, seed_offset=9, structs_trace=True)]
 
 def search(ctx, reason):
     t = run_seq(ctx, 'full', 300000, seed_offset=94, tag='search-full')
@@ -28,4 +35,6 @@ def search(ctx, reason):
     return None
 
 def replay(ctx, path):
+    if path.endswith('.trace'):
+        return replay_structs(ctx, path)
     return replay_seq(ctx, path)
